@@ -187,4 +187,50 @@ theorem split_total_f32 (lib : Libm) (x : Nat) (s : Bool) (m : Nat) (e : Int) (d
     [111] overflow_checks.2.2.2.2.2.2.2.1 lib [x] _ (insRel1 (finite_of_decode _ _ _ _ _ dx) (toQ_fin _ x s m e dx)) (hE_one bx) _ _ hq
   exact ⟨h, l, h1, h2, h3, xh, xl, h4, h5, hsum, hM, hl⟩
 
+theorem fix_checks : overflowFree binary32 [122, 122] add_2sum_fix_f32.nodes = true ∧
+    kindsOfS add_2sum_fix_f32.nodes [] = some [false, false, false, false, false, false, true, false, false, false, false, false, false] := by
+  decide +kernel
+
+lemma pow124_le_maxRat32 : (2 : ℚ) ^ (124 : ℤ) ≤ maxRat binary32 := by
+  have h : maxRat binary32 = ((2 : ℚ) ^ 24 - 1) * 2 ^ (104 : ℕ) := by
+    unfold maxRat pow2
+    have e1 : binary32.emaxUlp = 104 := by decide +kernel
+    have e2 : binary32.p = 24 := rfl
+    simp only [e1, e2]
+    have : Int.toNat 104 = 104 := rfl
+    norm_num [this]
+  rw [h]
+  norm_num
+
+/-- **2Sum with the overflow guard (`fix_overflow=True`) on bit patterns, unconditional** (float32, |x|, |y| ≤ 2^122): the guard
+is not taken, the run exists, is finite, and (s, t) is the exact transformation. -/
+theorem twosum_fix_total_f32 (lib : Libm) (x y : Nat) (qx qy : ℚ) (hx : isFiniteBits binary32 x = true) (hy : isFiniteBits binary32 y = true)
+    (vx : toQ binary32 x = some qx) (vy : toQ binary32 y = some qy) (bx : |qx| ≤ 2 ^ (122 : ℤ)) (bY : |qy| ≤ 2 ^ (122 : ℤ)) :
+    ∃ s t : Nat, add_2sum_fix_f32.eval lib [x, y] = some [s, t] ∧ isFiniteBits binary32 s = true ∧ isFiniteBits binary32 t = true ∧
+      ∃ qs qt : ℚ, toQ binary32 s = some qs ∧ toQ binary32 t = some qt ∧ qs = rne (qf binary32 (by decide)) (qx + qy) ∧ qs + qt = qx + qy := by
+  have hf : WF binary32 := ⟨by decide, by decide⟩
+  have hr := isRN_rne (qf binary32 hf.hp)
+  have hem : ∀ k : ℤ, 0 ≤ k → (qf binary32 hf.hp).emin ≤ k := fun k hk => by
+    have : binary32.emin = -149 := by decide +kernel
+    show binary32.emin ≤ k
+    omega
+  have p123 : (2 : ℚ) ^ (123 : ℤ) = 2 ^ (122 : ℤ) + 2 ^ (122 : ℤ) := by
+    rw [show (123 : ℤ) = 122 + 1 by norm_num, zpow_add₀ (by norm_num : (2 : ℚ) ≠ 0)]; norm_num
+  have p124 : (2 : ℚ) ^ (124 : ℤ) = 2 ^ (123 : ℤ) + 2 ^ (123 : ℤ) := by
+    rw [show (124 : ℤ) = 123 + 1 by norm_num, zpow_add₀ (by norm_num : (2 : ℚ) ≠ 0)]; norm_num
+  have b1 : |rne (qf binary32 hf.hp) (qx + qy)| ≤ 2 ^ (123 : ℤ) :=
+    abs_rn_le_pow hr (hem _ (by norm_num)) (by rw [p123]; exact le_trans (abs_add_le _ _) (add_le_add bx bY))
+  have b2 : |rne (qf binary32 hf.hp) (rne (qf binary32 hf.hp) (qx + qy) - qx)| ≤ 2 ^ (124 : ℤ) :=
+    abs_rn_le_pow hr (hem _ (by norm_num)) (by
+      rw [p124]
+      refine le_trans (abs_sub _ _) (add_le_add b1 (le_trans bx ?_))
+      exact zpow_le_zpow_right₀ (by norm_num) (by norm_num))
+  have hq := (twosum_fix_generated (qf binary32 hf.hp) (rne (qf binary32 hf.hp)) hr qx qy (rep_of_finite _ hf hx vx) (rep_of_finite _ hf hy vy)).1
+    (le_trans b2 pow124_le_maxRat32)
+  obtain ⟨s, t, h1, h2, h3, h4, h5⟩ := total2 add_2sum_fix_f32 hf Lmax_ge4.2.1 _ fix_checks.2
+    (by intro o ho; have : o = 2 ∨ o = 12 := by simpa [add_2sum_fix_f32] using ho
+        rcases this with rfl | rfl <;> decide)
+    [122, 122] fix_checks.1 lib [x, y] [qx, qy] (insRel2 hx hy vx vy) (hE_two bx bY) _ _ hq
+  exact ⟨s, t, h1, h2, h3, _, _, h4, h5, rfl, by ring⟩
+
 end FAVerif.Props.C10
